@@ -132,6 +132,18 @@ def recordHashDeleteKeepOuter (s : Shard) (k : Nat) (fields : List Nat) : Shard 
       ({ s with clock := r.1, keys := NMap.insert k rv' s.keys }, some rv')
     | _ => (s, none)
 
+/-- FLUSHDB / FLUSHALL at the replicated shard actor (`record_mutation_post_execute`:
+    `Command::FlushDb | Command::FlushAll => None`): the executor is emptied, the replication state
+    — keys, Lamport clock, vector clock — is NOT touched (`reset = false`, the code that exists).
+    `reset = true` is the variant "drop the replication metadata with the keys" implemented as
+    `*self = ShardReplicaState::new(..)`, which also takes the Lamport clock back to 0: the object
+    of `C08.flush_resets_clock_counterexample`. -/
+def flushWith (reset : Bool) (s : Shard) : Shard :=
+  if reset then Shard.init s.rid s.causal else s
+
+/-- the current tree -/
+def flush (s : Shard) : Shard := flushWith false s
+
 /-- `apply_remote_delta` -/
 def applyRemote (s : Shard) (k : Nat) (d : RV) : Shard :=
   let merged := match NMap.get s.keys k with
